@@ -1043,6 +1043,11 @@ impl<C: CellType> OptRebuild<'_, C> {
     ) -> HashMap<isize, Expr<C>> {
         let mut linear = HashMap::new();
         for var in vars {
+            if sub_state.written.contains_key(&var) {
+                // Pending operations see the value after the write, which is one
+                // step ahead of the linear progression assumed by loop motion.
+                continue;
+            }
             if let Some(complete) = sub_state.get(var) {
                 if let Some(inc) = complete.inc_of(var) {
                     if inc.variables().all(|x| constant.contains(&x)) {
